@@ -642,9 +642,10 @@ class CompositeDataSource(DataSource):
         if not self.has_data_sources():
             raise AttributeError("CompositeDataSource has no data sources")
 
-        results = []
-        for ds in self.data_sources:
-            results.extend(ds.related_to(*args, **kwargs))
+        # Resolve over the federation as a whole (relationships() and query()
+        # are federated), so that a relationship held by one member finds a
+        # related object held by another.
+        results = super(CompositeDataSource, self).related_to(*args, **kwargs)
 
         # remove exact duplicates (where duplicates are STIX 2.0
         # objects with the same 'id' and 'modified' values)
